@@ -66,8 +66,32 @@ durs_only_d_p(struct dt_dtdur_s dur[], size_t ndur)
 static struct dt_dt_s
 dadd_add(struct dt_dt_s d, struct dt_dtdur_s dur[], size_t ndur)
 {
+	bool sexyp = false;
+
+	if (d.typ == (dt_dttyp_t)DT_SEXY) {
+		/* a second count cannot keep the day of the month across
+		 * several month or year steps, a calendar date can */
+		for (size_t i = 0; i < ndur; i++) {
+			switch (dur[i].durtyp) {
+			case DT_DURMO:
+			case DT_DURQU:
+			case DT_DURYR:
+			case DT_DURYMD:
+				sexyp = true;
+				break;
+			default:
+				break;
+			}
+		}
+		if (sexyp) {
+			d = dt_dtconv((dt_dttyp_t)DT_YMD, d);
+		}
+	}
 	for (size_t i = 0; i < ndur; i++) {
 		d = dt_dtadd(d, dur[i]);
+	}
+	if (sexyp) {
+		d = dt_dtconv((dt_dttyp_t)DT_SEXY, dt_fixup(d));
 	}
 	return d;
 }
